@@ -1080,6 +1080,11 @@ class XsdElement(XsdComponent, ParticleMixin,
                     if err.elem is not None:
                         raise
                     errors.append(err)
+                else:
+                    if self.fixed is not None and elem.text and elem.text != self.fixed \
+                            and not strictly_equal(xsd_type.text_decode(elem.text),
+                                                   xsd_type.text_decode(self.fixed)):
+                        errors.append("must have the fixed value %r" % self.fixed)
 
             elif self.fixed is not None:
                 elem.text = self.fixed
@@ -1099,6 +1104,11 @@ class XsdElement(XsdComponent, ParticleMixin,
                     if err.elem is not None:
                         raise
                     errors.append(err)
+                else:
+                    if self.fixed is not None and elem.text and elem.text != self.fixed \
+                            and not strictly_equal(xsd_type.content.text_decode(elem.text),
+                                                   xsd_type.content.text_decode(self.fixed)):
+                        errors.append("must have the fixed value %r" % self.fixed)
 
             elif self.fixed is not None:
                 elem.text = self.fixed
